@@ -758,6 +758,34 @@ def xml_roundtrip(kind, x):
     return _tupleparse.TupleParser().parse_property(tt).value
 
 
+def oracle_real_xml(run, kind, bits):
+    """a real value written to CIM-XML by pywbem must be read back by pywbem as the same value; an exception of the
+    real writer or parser on pywbem's own output is a violation of the property, not a tool failure"""
+    x = b2f(bits) if kind == 'real64' else f32_of_bits(bits)
+    case = {'sub': 'real', 'kind': kind, 'bits': str(bits), 'path': 'xml'}
+    try:
+        y = xml_roundtrip(kind, x)
+    except Exception as e:  # noqa
+        run.violate({'kind': 'real_text_not_parsable', 'of': kind, 'path': 'xml', 'exc': type(e).__name__}, case,
+                    {'value': repr(x), 'error': str(e)[:200]})
+        return 'value %r -> XML -> %s: %s' % (x, type(e).__name__, str(e)[:120])
+    ok = (math.isnan(x) and math.isnan(y)) or (f2b(float(y)) == bits if kind == 'real64' else f32_bits(float(y)) == bits)
+    if not ok or type(y).__name__ != ('Real64' if kind == 'real64' else 'Real32'):
+        run.violate({'kind': 'real_roundtrip_differs', 'of': kind, 'path': 'xml'}, case, {'value': repr(x), 'parsed': repr(y)})
+    return 'value %r -> XML -> %r' % (x, y)
+
+
+def safe_real_text(run, kind, bits):
+    """text pywbem writes for the value; an exception of the writer is a violation (reported once per kind/exception)"""
+    x = b2f(bits) if kind != 'real32' else f32_of_bits(bits)
+    try:
+        return real_text(kind, x)
+    except Exception as e:  # noqa
+        run.violate({'kind': 'real_not_writable', 'of': kind, 'exc': type(e).__name__},
+                    {'sub': 'real', 'kind': kind, 'bits': str(bits)}, {'value': repr(x), 'error': str(e)[:200]})
+        return None
+
+
 # ----------------------------------------------------------------------------------------------- cimvalue
 
 def sc_spec_values(rng):
@@ -1030,25 +1058,271 @@ def oracle_cv(run, c, out, r, v, raised):
         return
     items = list(zip(r, v)) if isinstance(r, list) and isinstance(v, list) else [(r, v)]
     for ri, vi in items:
-        if not typed_ok(ri, t):
-            run.violate({'kind': 'cimvalue_not_typed', 'type': t, 'value_kind': value_kind(vi), 'got': type(ri).__name__}, c, out)
-        elif vi is not None and t == 'boolean' and not isinstance(vi, bool):
-            same = False
-            try:
-                same = isinstance(vi, (int, float)) and vi == ri
-            except Exception:  # noqa
-                pass
-            if not same:
-                run.violate({'kind': 'cimvalue_value_changed', 'type': 'boolean', 'how': 'truth_value_of_non_boolean',
-                             'value_kind': value_kind(vi)}, c, out)
-        elif vi is not None and t in INT_TYPES and isinstance(vi, (int, float)) and not isinstance(vi, bool):
-            if not (ri == vi):
-                run.violate({'kind': 'cimvalue_value_changed', 'type': 'integer', 'how': 'fraction_truncated',
-                             'value_kind': value_kind(vi)}, c, out)
+        check_stored(run, c, out, ri, vi, t)
+
+
+def check_stored(run, c, out, ri, vi, t, via=None):
+    """ri = what is stored for CIM type t after vi was given: exactly that CIM type (and, for boolean / integer types,
+    the value that was given)"""
+    extra = {'via': via} if via else {}
+    if not typed_ok(ri, t):
+        sig = {'kind': 'cimvalue_not_typed', 'type': t, 'via': via} if via else \
+            {'kind': 'cimvalue_not_typed', 'type': t, 'value_kind': value_kind(vi), 'got': type(ri).__name__}
+        run.violate(sig, c, out)
+    elif vi is not None and t == 'boolean' and not isinstance(vi, bool):
+        same = False
+        try:
+            same = isinstance(vi, (int, float)) and vi == ri
+        except Exception:  # noqa
+            pass
+        if not same:
+            run.violate(dict({'kind': 'cimvalue_value_changed', 'type': 'boolean', 'how': 'truth_value_of_non_boolean',
+                              'value_kind': value_kind(vi)}, **extra), c, out)
+    elif vi is not None and t in INT_TYPES and isinstance(vi, (int, float)) and not isinstance(vi, bool):
+        if not (ri == vi):
+            run.violate(dict({'kind': 'cimvalue_value_changed', 'type': 'integer', 'how': 'fraction_truncated',
+                              'value_kind': value_kind(vi)}, **extra), c, out)
 
 
 def cv_req(c, v):
     return {'op': 'cv', 'v': val_json(v, with_env=True), 't': c['t']}
+
+
+
+# ----------------------------------------------------------------------------------------------- sequences
+
+SEQ_FORMS = ['kwargs', 'tuples', 'dict', 'nocasedict', 'instname', 'instance']
+ELEM_CLASSES = ['CIMParameter', 'CIMQualifier', 'CIMQualifierDeclaration']
+
+
+def related_values(rng, t):
+    """value specs that are interesting for a property of CIM type t"""
+    out = []
+    if t in INT_TYPES:
+        lo, hi = spec_limits(t)
+        for v in (lo - 1, lo, hi, hi + 1, 0, 1, -1, 300, 2 ** 40):
+            out.append(A_int(v))
+            out.append(A_str(str(v)))
+        for t2 in INT_TYPES:
+            l2, h2 = spec_limits(t2)
+            for v in (l2, h2, min(max(lo - 1, l2), h2), min(max(hi + 1, l2), h2)):
+                out.append({'k': 'cimint', 'ty': t2, 'v': str(v)})
+        out += [A_float(1.0), A_float(1.5), A_float(float(hi) * 4 + 8), {'k': 'real64', 'b': str(f2b(2.0))}]
+    elif t in ('real32', 'real64'):
+        out += [A_int(3), A_int(10 ** 400), A_float(1.5), A_str('1.5'), A_str('x'), {'k': 'real32', 'b': str(f2b(1.5))},
+                {'k': 'real64', 'b': str(f2b(-2.0))}, {'k': 'cimint', 'ty': 'uint8', 'v': '7'}]
+    elif t == 'datetime':
+        out += [{'k': 'cimdt', 'src': '20200229120000.000000+000'}, A_str('20200229120000.000000+000'), A_str('20200229120000.000000+000x'),
+                {'k': 'datetime', 'f': [2020, 2, 29, 12, 0, 0, 0], 'off': None}, {'k': 'timedelta', 'f': ['3', 0, 0]}, A_int(5)]
+    elif t == 'boolean':
+        out += [{'k': 'bool', 'v': True}, {'k': 'bool', 'v': False}, A_int(0), A_int(2), A_str('false'), A_str('')]
+    elif t in ('string', 'char16'):
+        out += [A_str('a'), A_str('abc'), {'k': 'char16', 's': common.cps('z')}, A_int(42), {'k': 'bytes', 's': list(b'xy')},
+                {'k': 'cimint', 'ty': 'uint8', 'v': '7'}, {'k': 'bool', 'v': True}]
+    elif t == 'reference':
+        out += [{'k': 'instname', 't': True}, {'k': 'classname'}, A_str('C.k=1'), A_str('not a uri'), A_int(3)]
+    out.append({'k': 'none'})
+    return out
+
+
+def gen_seq_cases(rng, thorough):
+    """multi-step histories: an instance with typed properties (+ typed parameter / qualifier / qualifier declaration
+    objects), then values given through every public way: CIMInstance.update(), update_existing() (keyword, tuple and
+    mapping forms incl. CIMInstanceName / CIMInstance), __setitem__, the CIMProperty.value setter, the value setters
+    of the three other element classes"""
+    S = sc_spec_values(rng)
+    cases = []
+    n = 8000 if thorough else 1600
+    for _ in range(n):
+        k = rng.randint(2, 5)
+        props = []
+        for i in range(k):
+            t = rng.choice(ALL_TYPES)
+            props.append({'name': 'P%d' % i, 'type': t, 'arr': rng.random() < 0.1})
+        elems = [{'cls': rng.choice(ELEM_CLASSES), 'type': rng.choice([t for t in ALL_TYPES if t != 'reference'])}
+                 for _ in range(rng.choice([0, 0, 1, 2]))]
+
+        def val_for(pr):
+            v = rng.choice(related_values(rng, pr['type'])) if rng.random() < 0.7 else rng.choice(S)
+            if pr.get('arr') and rng.random() < 0.8:
+                return {'k': 'list', 'l': [v] + [rng.choice([v, {'k': 'none'}])] * rng.randint(0, 1)}
+            return v
+
+        def name_of(pr):
+            r = rng.random()
+            return pr['name'].lower() if r < 0.2 else ('Qx' if r < 0.27 else pr['name'])
+
+        ops = []
+        for _ in range(rng.randint(2, 6)):
+            r = rng.random()
+            if r < 0.5:
+                chosen = [rng.choice(props) for _ in range(rng.randint(1, 3))]
+                ops.append({'op': 'update_existing', 'form': rng.choice(SEQ_FORMS), 'items': [[name_of(pr), val_for(pr)] for pr in chosen]})
+            elif r < 0.62:
+                chosen = [rng.choice(props) for _ in range(rng.randint(1, 2))]
+                ops.append({'op': 'update', 'form': rng.choice(SEQ_FORMS), 'items': [[name_of(pr), val_for(pr)] for pr in chosen]})
+            elif r < 0.72:
+                pr = rng.choice(props)
+                ops.append({'op': 'setitem', 'items': [[name_of(pr), val_for(pr)]]})
+            elif r < 0.9 or not elems:
+                pr = rng.choice(props)
+                ops.append({'op': 'propvalue', 'items': [[pr['name'], val_for(pr)]]})
+            else:
+                i = rng.randrange(len(elems))
+                ops.append({'op': 'elemvalue', 'idx': i, 'items': [['', val_for(elems[i])]]})
+        cases.append({'sub': 'seq', 'props': props, 'elems': elems, 'ops': ops})
+    return cases
+
+
+def seq_build(c):
+    import pywbem
+    inst = pywbem.CIMInstance('C')
+    for pr in c['props']:
+        inst.properties[pr['name']] = pywbem.CIMProperty(pr['name'], None, type=pr['type'], is_array=pr.get('arr', False))
+    elems = []
+    for e in c['elems']:
+        if e['cls'] == 'CIMParameter':
+            elems.append(pywbem.CIMParameter('p', type=e['type']))
+        elif e['cls'] == 'CIMQualifier':
+            elems.append(pywbem.CIMQualifier('q', None, type=e['type']))
+        else:
+            elems.append(pywbem.CIMQualifierDeclaration('q', e['type']))
+    return inst, elems
+
+
+def seq_state(inst, elems):
+    st = {}
+    for name, prop in inst.properties.items():
+        st[name.lower()] = [prop.type, val_json(prop.value)]
+    return {'props': st, 'elems': [[e.type, val_json(e.value)] for e in elems]}
+
+
+def seq_mapping(form, items):
+    """the argument object of update()/update_existing() for a form; raises when Python/pywbem cannot even build it"""
+    import pywbem
+    from pywbem._nocasedict import NocaseDict
+    pairs = [(n, py_of_val(v)) for n, v in items]
+    if form == 'kwargs':
+        return (), dict(pairs), list(dict(pairs).items())
+    if form == 'tuples':
+        return (pairs,), {}, pairs
+    if form == 'dict':
+        d = dict(pairs)
+        return (d,), {}, list(d.items())
+    if form == 'nocasedict':
+        d = NocaseDict(pairs)
+        return (d,), {}, list(d.items())
+    if form == 'instname':
+        m = pywbem.CIMInstanceName('C', keybindings=dict(pairs))
+        return (m,), {}, list(m.items())
+    m = pywbem.CIMInstance('D', properties=dict(pairs))
+    return (m,), {}, list(m.items())
+
+
+def run_seq_real(run, c):
+    """execute the history on the real code; oracle after every step; returns the per-step records for K"""
+    inst, elems = seq_build(c)
+    steps = []
+    for si, op in enumerate(c['ops']):
+        before = seq_state(inst, elems)
+        kind = op['op']
+        via = kind + ('(%s)' % op['form'] if 'form' in op else '')
+        rec = {'via': via, 'before': before, 'eff': None}
+        try:
+            if kind in ('update', 'update_existing'):
+                args, kw, eff = seq_mapping(op['form'], op['items'])
+            else:
+                eff = [(n, py_of_val(v)) for n, v in op['items']]
+        except Exception as e:  # noqa      the argument object itself cannot be built: nothing was given to the instance
+            rec['out'] = 'setup:' + type(e).__name__
+            steps.append(rec)
+            run.count('seq-step:setup-failed')
+            continue
+        rec['eff'] = eff
+        try:
+            if kind == 'update':
+                inst.update(*args, **kw)
+            elif kind == 'update_existing':
+                inst.update_existing(*args, **kw)
+            elif kind == 'setitem':
+                inst[eff[0][0]] = eff[0][1]
+            elif kind == 'propvalue':
+                inst.properties[eff[0][0]].value = eff[0][1]
+            else:
+                elems[op['idx']].value = eff[0][1]
+            rec['out'] = 'ok'
+        except Exception as e:  # noqa
+            rec['out'] = exc_class(e)
+        rec['after'] = seq_state(inst, elems)
+        steps.append(rec)
+        run.count('seq-step:%s:%s' % (via, rec['out'] if isinstance(rec['out'], str) else rec['out']['exc']))
+        # ---- oracle: rejected with TypeError/ValueError, and whatever the typed elements hold now is of their CIM type
+        casei = dict(c, upto=si + 1)
+        if isinstance(rec['out'], dict) and rec['out']['exc'] not in ('TypeError', 'ValueError') and \
+                not (rec['out']['exc'] == 'KeyError' and kind == 'propvalue'):
+            run.violate({'kind': 'cimvalue_leaks_exception', 'exc': rec['out']['exc'], 'via': via}, casei, rec['out'])
+        given = {}
+        for n, v in eff:
+            given[n.lower() if isinstance(n, str) else n] = v
+        for name, prop in inst.properties.items():
+            vi = given.get(name.lower())
+            items = list(zip(prop.value, vi)) if isinstance(prop.value, list) and isinstance(vi, list) and \
+                len(vi) == len(prop.value) else ([(x, None) for x in prop.value] if isinstance(prop.value, list) else [(prop.value, vi)])
+            changed = rec['after']['props'].get(name.lower()) != before['props'].get(name.lower())
+            for ri, vii in items:
+                if changed:
+                    check_stored(run, casei, {'property': name, 'type': prop.type, 'holds': repr(ri)[:80]}, ri,
+                                 vii if changed else None, prop.type, via=via)
+        for e, spec in zip(elems, c['elems']):
+            for ri in (e.value if isinstance(e.value, list) else [e.value]):
+                if not typed_ok(ri, e.type):
+                    check_stored(run, casei, {'element': spec['cls'], 'type': e.type, 'holds': repr(ri)[:80]}, ri, None, e.type, via=via)
+    return steps
+
+
+def seq_requests(c, steps):
+    """model side: what the typed setter behind update_existing() / .value must do with each given value
+    (cimvalue(value, type of the existing element)); returns [(step index, item index, name, request)]"""
+    reqs = []
+    for si, (op, rec) in enumerate(zip(c['ops'], steps)):
+        if rec.get('eff') is None or op['op'] not in ('update_existing', 'propvalue', 'elemvalue'):
+            continue
+        for ii, (n, v) in enumerate(rec['eff']):
+            if op['op'] == 'elemvalue':
+                t = rec['before']['elems'][op['idx']][0]
+            else:
+                ent = rec['before']['props'].get(n.lower() if isinstance(n, str) else n)
+                if ent is None:
+                    continue
+                t = ent[0]
+            reqs.append((si, ii, n, {'op': 'cv', 'v': val_json(v, with_env=True), 't': t}))
+    return reqs
+
+
+def seq_compare(run, c, steps, answered):
+    """answered: [(si, ii, name, model answer)] in item order"""
+    by_step = {}
+    for si, ii, n, ans in answered:
+        by_step.setdefault(si, []).append((n, ans))
+    for si, items in by_step.items():
+        op, rec = c['ops'][si], steps[si]
+        exp_props = {k: list(v) for k, v in rec['before']['props'].items()}
+        exp_elems = [list(e) for e in rec['before']['elems']]
+        exp_out = 'ok'
+        for n, ans in items:
+            if 'exc' in ans:
+                exp_out = ans
+                break
+            if op['op'] == 'elemvalue':
+                exp_elems[op['idx']][1] = ans['ok']
+            else:
+                exp_props[n.lower()][1] = ans['ok']
+        if op['op'] == 'propvalue' and not items:
+            continue
+        got = (rec['out'], rec['after']['props'], rec['after']['elems'])
+        if got != (exp_out, exp_props, exp_elems):
+            run.disagree(dict(c, upto=si + 1), {'out': exp_out, 'props': exp_props, 'elems': exp_elems},
+                         {'out': got[0], 'props': got[1], 'elems': got[2]}, 'typed setter sequence: ' + rec['via'])
 
 
 # ----------------------------------------------------------------------------------------------- the run
@@ -1099,6 +1373,11 @@ def eval_case(run, c, model=None):
         # (a typed element that cannot even be created with value None, e.g. a qualifier of type reference, has no setter to compare)
         setup_ok = c.pop('_setup_ok', False)
         return out, (cv_req(c, v) if c['via'] == 'cimvalue' or (c['via'].endswith('.value') and setup_ok) else None)
+    if c['sub'] == 'seq':
+        if 'upto' in c:
+            c = dict(c, ops=c['ops'][:c['upto']])
+        steps = run_seq_real(run, c)
+        return {'ok': [st['out'] for st in steps]}, None
     raise ValueError(c)
 
 
@@ -1109,7 +1388,10 @@ RULE = ('int: 8 types x (boundaries +-1, 2^k+-1, random in/out of range) x {int,
         'kinds, calendar sweep incl. leap days, invalid fields, near-miss mutations of the 25-char string, datetime/'
         'timedelta/CIMDateTime inputs incl. offsets beyond +-999 and negative/huge intervals; real: special values, '
         'powers of ten, every float32 exponent, random doubles and float32 by bit pattern; cv: (value-kind x type) matrix '
-        'incl. None/unknown type, arrays, the value setters of the 4 typed element classes. non-trivial = the real code '
+        'incl. None/unknown type, arrays, the value setters of the 4 typed element classes; seq: histories of 2..6 steps on '
+        'an instance with 2..5 typed properties (+ parameter/qualifier/qualifier declaration objects) giving values through '
+        'update(), update_existing() in 6 argument forms (kwargs, tuples, dict, NocaseDict, CIMInstanceName, CIMInstance), '
+        '__setitem__, CIMProperty.value and the other value setters, stored type/range checked after every step. non-trivial = the real code '
         'accepted the input (an object was built / a text was produced); distinct = distinct JSON spec')
 
 ASSUMPTIONS = [
@@ -1147,15 +1429,11 @@ def collect(run, rng, th, scale=1.0):
     n64, n32 = (2000000, 400000) if th else (200000, 40000)
     b64, b32 = gen_real_bits(rng, int(n64 * scale), int(n32 * scale))
     real_items = []          # (kind, bits, real text, codec text)
-    for b in b64:
-        x = b2f(b)
-        real_items.append(('real64', b, real_text('real64', x), format(x, '.17G')))
-    for b in b64[:5000]:
-        x = b2f(b)
-        real_items.append(('float', b, real_text('float', x), format(x, '.17G')))
-    for b in b32:
-        x = f32_of_bits(b)
-        real_items.append(('real32', b, real_text('real32', x), format(x, '.11G')))
+    for kind, bb, spec in (('real64', b64, '.17G'), ('float', b64[:5000], '.17G'), ('real32', b32, '.11G')):
+        for b in bb:
+            txt = safe_real_text(run, kind, b)
+            if txt is not None:
+                real_items.append((kind, b, txt, format(b2f(b) if kind != 'real32' else f32_of_bits(b), spec)))
     shape = {}
     for kind, bits, real_txt, codec_txt in real_items:
         oracle_real(run, kind, bits, real_txt)
@@ -1171,23 +1449,28 @@ def collect(run, rng, th, scale=1.0):
     for kind, bits, real_txt, _ in real_items[:200] + [real_items[rng.randrange(len(real_items))] for _ in range(nx)]:
         if kind == 'float':
             continue
-        x = b2f(bits) if kind == 'real64' else f32_of_bits(bits)
-        y = xml_roundtrip(kind, x)
-        ok = (math.isnan(x) and math.isnan(y)) or (f2b(float(y)) == bits if kind == 'real64' else f32_bits(float(y)) == bits)
+        oracle_real_xml(run, kind, bits)
         run.count('real-xmlpath')
-        if not ok or type(y).__name__ != ('Real64' if kind == 'real64' else 'Real32'):
-            run.violate({'kind': 'real_roundtrip_differs', 'of': kind, 'path': 'xml'}, {'sub': 'real', 'kind': kind, 'bits': str(bits),
-                                                                                        'path': 'xml'}, {'parsed': repr(y)})
+    # multi-step histories over every public way of giving a value to a typed element
+    seq_cases = gen_seq_cases(rng, th) if scale >= 1.0 else gen_seq_cases(rng, False)
+    seq_steps, seq_reqs = [], []
+    for c in seq_cases:
+        steps = run_seq_real(run, c)
+        seq_steps.append(steps)
+        seq_reqs.append(seq_requests(c, steps))
+        run.case(c, nontrivial=any(st['out'] == 'ok' for st in steps))
     run.extra['sizes'] = {'int': sum(1 for c in cases if c['sub'] == 'int'), 'dt': sum(1 for c in cases if c['sub'] == 'dt'),
-                          'cv': sum(1 for c in cases if c['sub'] == 'cv'), 'real': len(real_items)}
-    return cases, outs, reqs, idx, real_items
+                          'cv': sum(1 for c in cases if c['sub'] == 'cv'), 'real': len(real_items), 'seq': len(seq_cases),
+                          'seq_steps': sum(len(x) for x in seq_steps)}
+    return cases, outs, reqs, idx, real_items, (seq_cases, seq_steps, seq_reqs)
 
 
 def run(run):
     run.rule = RULE
     run.assumptions += ASSUMPTIONS
-    cases, outs, reqs, idx, real_items = collect(run, run.rng, run.thorough)
+    cases, outs, reqs, idx, real_items, (seq_cases, seq_steps, seq_reqs) = collect(run, run.rng, run.thorough)
     CH = 5000
+    seq_flat = [r[3] for rq in seq_reqs for r in rq]
     real_reqs = [{'op': 'real', 's': [it[3] for it in real_items[i:i + CH]]} for i in range(0, len(real_items), CH)]
     unp = gen_unp_items(run.rng, real_items, run.thorough)
     unp_real = [run_unp_real(txt, t) for txt, t in unp]
@@ -1196,7 +1479,13 @@ def run(run):
         run.count('unpack_numeric:' + o.get('exc', 'ok'))
     run.evaluations += len(unp)
     run.extra['sizes']['unpack_numeric'] = len(unp)
-    answers = common.run_driver(PROP, [{'op': 'limits'}] + reqs + real_reqs + unp_reqs)
+    answers = common.run_driver(PROP, [{'op': 'limits'}] + reqs + real_reqs + unp_reqs + seq_flat)
+    seq_answers = answers[len(answers) - len(seq_flat):] if seq_flat else []
+    answers = answers[:len(answers) - len(seq_flat)]
+    pos = 0
+    for c, steps, rq in zip(seq_cases, seq_steps, seq_reqs):
+        seq_compare(run, c, steps, [(si, ii, n, seq_answers[pos + j]) for j, (si, ii, n, _r) in enumerate(rq)])
+        pos += len(rq)
     lim = answers[0]
     # the limits / digits the model uses are the ones extracted from this repo; compare with the live classes
     for name, lo, hi in lim['limits']:
@@ -1268,19 +1557,23 @@ def replay(payload):
         bits = int(c['bits'])
         x = f32_of_bits(bits) if c['kind'] == 'real32' else b2f(bits)
         if c.get('path') == 'xml':
-            y = xml_roundtrip(c['kind'], x)
-            ok = (math.isnan(x) and math.isnan(y)) or (f2b(float(y)) == bits if c['kind'] == 'real64' else f32_bits(float(y)) == bits)
-            info = 'value %r -> XML -> %r' % (x, y)
-            if not ok:
-                r.violate({'kind': 'real_roundtrip_differs', 'of': c['kind'], 'path': 'xml'}, c, {})
+            info = oracle_real_xml(r, c['kind'], bits)
         else:
-            txt = real_text(c['kind'], x)
+            txt = safe_real_text(r, c['kind'], bits)
             info = 'value %r -> text %r' % (x, txt)
-            oracle_real(r, c['kind'], bits, txt)
+            if txt is not None:
+                oracle_real(r, c['kind'], bits, txt)
     else:
         out, _ = eval_case(r, c)
         info = 'real outcome: ' + json.dumps(out)[:600]
-    if r.violations:
-        return False, 'property C06 FAILS on this input: ' + json.dumps(r.violations[0]['sig']) + '\n' + info + \
-            '\nobserved: ' + json.dumps(r.violations[0]['observed'], default=str)[:600]
+    # a history may also exhibit open known findings; they only count when the replayed failure is itself one of them
+    known = common.load_known_all()
+
+    def is_known(sig):
+        return any(common.matches(f, PROP, sig) for f in known)
+
+    viols = r.violations if is_known(payload.get('sig') or {}) else [v for v in r.violations if not is_known(v['sig'])]
+    if viols:
+        return False, 'property C06 FAILS on this input: ' + json.dumps(viols[0]['sig']) + '\n' + info + \
+            '\nobserved: ' + json.dumps(viols[0]['observed'], default=str)[:600]
     return True, 'property C06 holds on this input; ' + info
